@@ -77,7 +77,22 @@ def gen(seed, run, sub="files", tier="quick"):
         k_ += 1
     ops.append(["flush"] if r.random() < 0.5 else ["observe"])
     ops.append(["teardown"])
+    # some writers are created by the builder itself from its configuration (output=,
+    # print_lines=, direct_write=) instead of add_writer()
+    via_config = {}
+    if r.random() < 0.35:
+        outs = [i for i, w_ in enumerate(writers) if w_["kind"] in
+                ("path", "pathnested", "relpath", "bin", "text", "textnl", "bytesio", "stringio", "codecs", "tmptext")]
+        cons = [i for i, w_ in enumerate(writers) if w_["kind"] == "console"]
+        sers = [i for i, w_ in enumerate(writers) if w_["kind"] == "serial"]
+        if outs and r.random() < 0.8:
+            via_config["output"] = r.choice(outs)
+        if cons and r.random() < 0.8:
+            via_config["print_lines"] = cons[0]
+        if sers and r.random() < 0.7:
+            via_config["direct"] = sers[0]
     scn = {
+        "via_config": via_config,
         "lane": "c14", "sub": sub, "line_ending": r.choice(["os", "\\n", "\\r\\n", "\\r\\n", "\\r"]), "writers": writers,
         "ops": ops, "draws": common.gen_draws(r) if sub == "mixed" else {},
         "cfg": {"greeting": r.choice(["start", ""]), "boot": 0.0, "drop_while_booting": False,
@@ -220,6 +235,7 @@ def execute(scn, guide=None, keep=False):
             w.obj = FileWriter(w.stream)
         elif kd == "console":
             fake = FakeStdout()
+            w.fake_stdout = fake
             sys.stdout = fake
             try:
                 w.obj = ConsoleWriter()
@@ -283,13 +299,59 @@ def execute(scn, guide=None, keep=False):
 
     def main():
         le = scn["line_ending"]
-        g = GCodeBuilder(line_endings=le)
+        for spec in scn["writers"]:
+            pool.append(make(spec))
+        vc = scn.get("via_config") or {}
+        kwargs = {"line_endings": le}
+        if "output" in vc:
+            w_ = pool[vc["output"]]
+            kwargs["output"] = w_.obj._output      # the path string or the stream handed to FileWriter
+        if "print_lines" in vc:
+            kwargs["print_lines"] = True
+        if "direct" in vc:
+            sp = pool[vc["direct"]].spec
+            if sp.get("transport") == "socket":
+                kwargs.update(direct_write="socket", host="10.0.0.5", port=8080)
+            else:
+                kwargs.update(direct_write="serial", port="/dev/sim", baudrate=115200)
+        if "print_lines" in vc:
+            sys.stdout = pool[vc["print_lines"]].fake_stdout
+        try:
+            g = GCodeBuilder(**kwargs)
+        finally:
+            sys.stdout = old_stdout
+        # adopt the writers the builder created for itself
+        if vc:
+            from gscrib.writers.serial_writer import SerialWriter as _SW
+            from gscrib.writers.socket_writer import SocketWriter as _KW
+            i_ = 0
+            made = []
+            while True:
+                try:
+                    made.append(g.get_writer(i_))
+                except IndexError:
+                    break
+                i_ += 1
+            want = len([x for x in ("output", "print_lines", "direct") if x in vc])
+            if len(made) != want:
+                V("config-writers", got=[type(x).__name__ for x in made], want=want)
+            for obj in made:
+                if isinstance(obj, ConsoleWriter) and "print_lines" in vc:
+                    tgt = pool[vc["print_lines"]]
+                elif isinstance(obj, FileWriter) and "output" in vc:
+                    tgt = pool[vc["output"]]
+                elif isinstance(obj, (_SW, _KW)) and "direct" in vc:
+                    tgt = pool[vc["direct"]]
+                else:
+                    V("config-writers", unexpected=type(obj).__name__)
+                    continue
+                tgt.obj = obj
+                tgt.registered = True
+            k.probe("c14.writers_from_config", len(made))
         eol = os.linesep if le == "os" else le.encode().decode("unicode-escape")
         cur = {"eol": eol}
         r0 = Rec("R0")
         g.add_writer(r0)
-        for spec in scn["writers"]:
-            pool.append(make(spec))
         seen = 0
 
         def absorb(nlines_expected, raw=None):
